@@ -43,6 +43,18 @@ def make_monitor(ctx):
                 if c.obs.exit == 0:
                     return ("exit status 0 with -D although %s" % bad, "C02:post-mortem-pass")
                 return None
+        # "a test module could not be imported", in whichever process: a module whose import began and did not end
+        begun, ended = {}, set()
+        for e in c.obs.events:
+            if e.get("ev") == "modimport":
+                begun.setdefault((e["pid"], e["m"]), e)
+            elif e.get("ev") == "modok":
+                ended.add((e["pid"], e["m"]))
+        broken = sorted({m for (pid, m) in begun if (pid, m) not in ended
+                         and not c.world["modules"].get(m, {}).get("importError")})
+        if broken and not died and not bad:
+            bad = "test module(s) %r could not be imported in a process of the run" % broken
+            want = 1
         if c.obs.exit != want:
             return ("exit status %r, but %s" % (c.obs.exit, bad or "nothing went wrong"), "C02:verdict")
         if c.obs.exit == 0 and c.groups is not None and not c.obs.timeout:
@@ -114,6 +126,7 @@ def gen_cases(ctx):
         cases.append(cw.Case(w, o))
     cases += noisy_cases(ctx, 12 if ctx.quick() else 300)
     cases += stdin_cases(ctx, 3 if ctx.quick() else 40)
+    cases += wrapper_cases(ctx, 8 if ctx.quick() else 80)
     # outcomes that depend on state surviving --repeat iterations: every bad part raises only the first time
     for i in range(8 if ctx.quick() else 200):
         w = worlds.gen_world(rng, n_layers=rng.choice([1, 2, 3]), tests_per_layer=(1, 3),
@@ -153,6 +166,53 @@ def gen_cases(ctx):
             w["layers"][base]["tearDownFaults"] = [[0, 1]]
             w["layers"][derived]["tearDownFaults"] = [[999999, 2]]
         cases.append(cw.Case(w, {"verbose": rng.choice([0, 1, 2]), "processes": 1}, "teardown-faults"))
+    return cases
+
+
+def wrapper_cases(ctx, n):
+    """the runner started through a wrapper script without suffix that extends sys.path; test modules import code
+    that is found only there; layers resumed in subprocesses (one cannot be torn down) or run with -j N"""
+    rng = ctx.rng
+    cases = []
+    for i in range(n):
+        w = worlds.gen_world(rng, n_layers=rng.choice([3, 4]), tests_per_layer=(1, 3), p_fault=0.0, p_write=0.0,
+                             kinds=["pass"] if i % 2 == 0 else ["pass", "pass", "fail", "error"],
+                             layout={"modnames": ["tests", "pa.tests", "pb.tests"][:rng.choice([2, 3])]})
+        w.pop("sysPathObject", None)
+        # (not every module: the layers of a subprocess are found through the modules it can import)
+        for name_ in rng.sample(sorted(w["modules"]), rng.choice([1, 1, len(w["modules"])])):
+            w["modules"][name_]["needsHelper"] = True
+        o = {"verbose": rng.choice([0, 1]), "processes": rng.choice([1, 2]), "wrapper": True}
+        if o["processes"] == 1:
+            # (no layer can be torn down: whichever runs first in the parent, the others are resumed)
+            for l in w["layers"]:
+                if l["kind"] != "unit":
+                    l["setUp"] = l["tearDown"] = True
+                    l["bases"] = []
+                    l["tearDownFaults"] = [[999999, 2]]
+        if i % 2 == 0:
+            # directed: only "pa.tests" needs the extra path, and every layer also owns a test of "tests" - a subprocess
+            # that lost the extra path still finds its layer, and silently loses the tests of pa.tests
+            for m_ in w["modules"].values():
+                m_.pop("needsHelper", None)
+            w["modules"]["pa.tests"]["needsHelper"] = True
+            nid = max([t["id"] for t in w["tests"]] + [0]) + 1
+            for li, l in enumerate(w["layers"]):
+                for mod_ in ("tests", "pa.tests"):
+                    if l["kind"] == "unit" and mod_ == "pa.tests":
+                        continue
+                    t = worlds.gen_test(rng, nid, [9000 + nid], kind="pass" if (i % 4 == 0 or mod_ == "tests") else "fail", p_write=0.0)
+                    for k in ("doctest", "rebind", "ownstream"):
+                        t.pop(k, None)
+                    t["layer"], t["module"] = li, mod_
+                    w["tests"].append(t)
+                    w["modules"][mod_]["suites"].append({"t": "leaf", "id": nid, "lyr": None if l["kind"] == "unit" else li})
+                    nid += 1
+            for t in w["tests"]:
+                if w["layers"][t["layer"]]["kind"] == "unit" and t["module"] != "tests":
+                    # (unit tests run in the parent; keep them out of the module under test)
+                    pass
+        cases.append(cw.Case(w, o, "wrapper-script"))
     return cases
 
 
